@@ -12,17 +12,33 @@
 (d) select_bands (surface calculators), non-additive formula (Morb), degen_Kramers; an exactly
     representable flat-band model pins the inclusive convention  E <= E_F  at first/interior/last grid point.
 hole_like is NOT judged (undocumented, outside the property) - only an informational counter.
+
+Widened after the seeded-change review (classes drawn by rng inside `case`; every one has its own counter):
+  models    : m = 3, 4 identical copies (exact 3-/4-fold multiplets), "chain" multiplets (copies shifted by 0.45 / 0.8 / 1.6 / 4 times
+              degen_thresh, so that neighbours are closer than the threshold but the ends are not), a constant energy offset
+              (0, -7.5, +120 eV: "any offset"), 3D grids with one direction of size 1 or 7-8
+  histories : the system first goes through public API calls (gen_systems.history_variant: rvec.copy / do_ws_dist / npz round trip),
+              has all its cached properties touched (monitors.warm_caches), and the SAME calculator objects are asked a second time on a
+              grid object with another NKdiv x NKFFT split of the same mesh (same k set): same answers, earlier results untouched
+  options   : degen_thresh left at its documented default, 0 and negative (never degenerate); constant_factor (linear);
+              Fermi grids of 100 / 128 / 257 points and windows completely above / below the bands;
+              select_bands in permuted order, selecting everything (== no selection), nothing (== 0), with fder = 2, 3, with any formula
+              (selection + complement == no selection), k_resolved; tetra=True only differentially (k-average of k_resolved == unresolved,
+              selection + complement == no selection; the tetrahedron weights themselves belong to C14)
+  exact ties: integer-dtype Fermi array, a degenerate group whose MEAN is exactly on a Fermi level, DOS (fder=1) on exact ties
+  pending   : select_bands / Efermi given as tuple or list (env VERIF_C13_PENDING=1; fires on the unchanged tree, see the report)
 """
 import os
 import sys
 
 sys.path.insert(0, os.path.dirname(os.path.dirname(os.path.abspath(__file__))))
-from vlib import env, harness, gen_systems, kspace, runner  # noqa: E402
+from vlib import env, harness, gen_systems, kspace, runner, monitors  # noqa: E402
 import numpy as np  # noqa: E402
 
 PROP = "C13"
 TIE = 1e-7
 EXTRA = {0: 0, 1: 1, 2: 1, 3: 2}
+PENDING = os.environ.get("VERIF_C13_PENDING", "0") == "1"
 
 
 def setup(ctx):
@@ -31,23 +47,38 @@ def setup(ctx):
 
 
 # ----------------------------------------------------------------------------------------------
-def build_system(rng, variant, dim):
+def build_system(rng, variant, dim, thresh=1e-4, offset=0.0):
+    """generic: random Hermitian model.  doubled / multi: m = 2 / 3-4 identical decoupled copies, interleaved (exact m-fold degeneracy of
+    every band at every k).  chain: the copies are shifted rigidly by i*delta with delta = 0.45, 0.8, 1.6 or 4 |degen_thresh| (0.8 with
+    m >= 3: neighbours closer than the threshold, the ends further apart).  offset: constant added to all on-site energies."""
     periodic = (True, True, True) if dim == 3 else (True, True, False)
     radius = rng.uniform(1.0, 1.8)
-    if variant == "generic":
-        nw = int(rng.integers(2, 6))
-        return gen_systems.herm_system(rng, num_wann=nw, keys=("Ham", "SS"), periodic=periodic, radius=radius)
-    # exact two-fold degeneracy of every band at every k: two identical copies, interleaved
-    nw0 = int(rng.integers(1, 4))
     lattice = gen_systems.random_lattice(rng)
     iR = gen_systems.symmetric_R_set(rng, radius=radius, periodic=periodic)
-    m0 = gen_systems.random_matrices(rng, iR, lattice, nw0, keys=("Ham",))
-    Ham = np.zeros((len(iR), 2 * nw0, 2 * nw0), dtype=complex)
-    for i in range(2):
-        Ham[:, i::2, i::2] = m0["Ham"]
-    SS = gen_systems.random_matrices(rng, iR, lattice, 2 * nw0, keys=("Ham", "SS"))["SS"]
-    cred = np.repeat(gen_systems.random_centers(rng, nw0), 2, axis=0)
-    return gen_systems.make_system(lattice, iR, dict(Ham=Ham, SS=SS), cred, periodic=periodic)
+    i0 = int(np.where(np.all(np.asarray(iR) == 0, axis=1))[0][0])
+    info = dict(m=1, delta=0.0)
+    if variant == "generic":
+        nw = int(rng.integers(2, 6))
+        mats = gen_systems.random_matrices(rng, iR, lattice, nw, keys=("Ham", "SS"))
+        Ham, SS = np.array(mats["Ham"]), mats["SS"]
+        cred = gen_systems.random_centers(rng, nw)
+    else:
+        m = 2 if variant == "doubled" else int(rng.integers(3, 5)) if variant == "multi" else int(rng.integers(2, 5))
+        nw0 = int(rng.integers(1, 4 if m == 2 else 3))
+        m0 = gen_systems.random_matrices(rng, iR, lattice, nw0, keys=("Ham",))
+        Ham = np.zeros((len(iR), m * nw0, m * nw0), dtype=complex)
+        delta = 0.0
+        if variant == "chain":
+            delta = abs(thresh) * [0.45, 0.8, 1.6, 4.0][int(rng.integers(4))]
+        for i in range(m):
+            Ham[:, i::m, i::m] = m0["Ham"]
+            Ham[i0, i::m, i::m] += i * delta * np.eye(nw0)
+        SS = gen_systems.random_matrices(rng, iR, lattice, m * nw0, keys=("Ham", "SS"))["SS"]
+        cred = np.repeat(gen_systems.random_centers(rng, nw0), m, axis=0)
+        nw = m * nw0
+        info = dict(m=m, delta=delta)
+    Ham[i0] += offset * np.eye(nw)
+    return gen_systems.make_system(lattice, iR, dict(Ham=Ham, SS=SS), cred, periodic=periodic), info
 
 
 def split_grid(rng, NK):
@@ -149,61 +180,186 @@ def central_diff(B, n, dE):
 
 def flat_band_case(ctx, rng):
     """exactly representable energies and Fermi grids: a state exactly AT a Fermi level is counted there
-    (documented bin = ceil((E-EFmin)/dE)), no matter whether it is the first, an interior or the last grid point"""
+    (documented bin = ceil((E-EFmin)/dE)), no matter whether it is the first, an interior or the last grid point.
+    With degen_thresh = 1 the three lowest bands 0.5, 1.25, 1.25 form one group whose MEAN is exactly 1.0 (a grid point): the group is
+    counted whole from there on.  The grid may have integer dtype.  DOS (fder=1) = difference quotient of that count."""
     from wannierberri import calculators as calc
     from wannierberri.grid import Grid
     e = np.array([0.5, 1.25, 1.25, 3.0])[: int(rng.integers(2, 5))]
     nw = len(e)
+    thresh = [1e-4, 1.0][int(rng.integers(2))]
     lattice = np.diag([2.0, 2.5, 3.0])
     Ham = np.zeros((1, nw, nw), dtype=complex)
     Ham[0] = np.diag(e)
     s = gen_systems.make_system(lattice, np.array([[0, 0, 0]]), dict(Ham=Ham), rng.uniform(0, 1, (nw, 3)))
     grids = {"interior": 0.25 * np.arange(-1, 8), "last": 0.25 * np.arange(0, 6), "first": 0.5 + 0.25 * np.arange(0, 5),
-             "single": np.array([1.25])}
-    calcs = {k: calc.static.CumDOS(Efermi=Ef, save_mode="") for k, Ef in grids.items()}
+             "single": np.array([1.25]), "int": np.arange(0, 5), "mean_first": 1.0 + 0.25 * np.arange(0, 4),
+             "mean_last": 0.25 * np.arange(0, 5)}
+    groups = kspace.groups_of(e, thresh)
+    means = np.array([e[b1:b2].mean() for b1, b2 in groups])
+    sizes = np.array([b2 - b1 for b1, b2 in groups], dtype=float)
+
+    def count(x):
+        return np.array([sizes[means <= xx].sum() for xx in np.atleast_1d(x)], dtype=float)
+
+    calcs = {k: calc.static.CumDOS(Efermi=Ef, degen_thresh=thresh, save_mode="") for k, Ef in grids.items()}
+    calcs.update({"dos_" + k: calc.static.DOS(Efermi=Ef, degen_thresh=thresh, save_mode="") for k, Ef in grids.items()})
     res = runner.run(s, Grid(s, NKdiv=1, NKFFT=(2, 1, 2)), calcs)
     for k, Ef in grids.items():
-        exp = np.array([(e <= x).sum() for x in Ef], dtype=float)
-        ctx.close("CumDOS!=count(E<=EF)[exact_tie]", res.results[k].data, exp, atol=1e-12, rtol=0, scale=nw,
-                  what=f"flat bands {e.tolist()} on an exactly representable Fermi grid ({k})",
-                  witness=dict(energies=e, Efermi=Ef, got=res.results[k].data))
+        wit = dict(energies=e, degen_thresh=thresh, Efermi=Ef, dtype=str(Ef.dtype), groups=groups, group_means=means)
+        ctx.close("CumDOS!=count(E<=EF)[exact_tie]", res.results[k].data, count(Ef), atol=1e-12, rtol=0, scale=nw,
+                  what=f"flat bands {e.tolist()} (degen_thresh={thresh}) on an exactly representable Fermi grid ({k})",
+                  witness=dict(wit, got=res.results[k].data))
+        dE = float(Ef[1] - Ef[0]) if len(Ef) > 1 else 1e-3
+        exp = (count(Ef + dE) - count(Ef - dE)) / (2 * dE)
+        ctx.close("DOS!=difference_quotient_of_count[exact_tie]", res.results["dos_" + k].data, exp, rtol=1e-12, scale=nw / dE,
+                  what=f"DOS of flat bands {e.tolist()} (degen_thresh={thresh}) on an exactly representable Fermi grid ({k})",
+                  witness=dict(wit, got=res.results["dos_" + k].data))
     ctx.count("exact_tie_grids", len(grids))
+    if thresh == 1.0 and nw >= 3:
+        ctx.count("exact_tie_group_mean_on_grid")
+    ctx.count("exact_tie_integer_dtype_grid")
 
 
 # ----------------------------------------------------------------------------------------------
+def direct_ranges_case(ctx, rng):
+    """tetrahedron.get_bands_in_range / get_bands_below_range called directly, including the arguments that the tetra=False calculators never
+    pass (Ebandmin / Ebandmax: the span of each band over a k-cell; select_bands in any order; degen_thresh <= 0): every group returned
+    is a whole group (borders only where the centre energies differ by more than the threshold, with degen_Kramers only at even indices), a
+    group is returned iff its span intersects the window and it holds a selected band, and the bands below the window together with
+    the groups in the window account for every band whose span lies below the upper edge exactly once."""
+    from wannierberri.grid.tetrahedron import get_bands_in_range, get_bands_below_range
+    for _ in range(12):
+        nb = int(rng.integers(1, 9))
+        gaps = rng.choice([0.0, 2e-5, 0.007, 0.05, 0.4, 1.1], size=nb)
+        E = np.cumsum(gaps) + rng.uniform(-3, 3)
+        thresh = float([1e-4, 1e-3, 0.03, 0.3, 0.8, 0.0, -1.0][int(rng.integers(7))])
+        if np.min(np.abs(np.diff(E) - thresh), initial=1.0) < TIE:
+            continue
+        kramers = bool(nb % 2 == 0 and rng.random() < 0.4)
+        spans = bool(rng.random() < 0.5)
+        # spans of the bands over the cell: monotone like the centre energies (band n lies below band n+1 at every corner)
+        lo_b = E - (np.sort(rng.uniform(0, 0.5, nb))[::-1] if spans else 0)
+        hi_b = E + (np.sort(rng.uniform(0, 0.5, nb)) if spans else 0)
+        emin = rng.uniform(E[0] - 1, E[-1] + 1)
+        emax = emin + [0.0, 0.01, 0.3, 2.0, 10.0][int(rng.integers(5))]
+        if min(np.abs(hi_b - emin).min(), np.abs(lo_b - emax).min()) < TIE:
+            continue
+        sel = None
+        if rng.random() < 0.5:
+            sel = rng.permutation(nb)[: int(rng.integers(1, nb + 1))]
+        kw = dict(degen_thresh=thresh, degen_Kramers=kramers, select_bands=sel)
+        if spans:
+            kw.update(Ebandmin=lo_b, Ebandmax=hi_b)
+        got = [tuple(int(x) for x in g) for g in get_bands_in_range(emin, emax, E, **kw)]
+        groups = kspace.groups_of(E, thresh, kramers)
+        exp = [g for g in groups if hi_b[g[0]:g[1]].max() >= emin and lo_b[g[0]:g[1]].min() <= emax
+               and (sel is None or len(set(range(*g)) & set(int(x) for x in sel)) > 0)]
+        wit = dict(E=E, Ebandmin=lo_b if spans else None, Ebandmax=hi_b if spans else None, emin=emin, emax=emax, degen_thresh=thresh,
+                   degen_Kramers=kramers, select_bands=sel, got=got, expected=exp)
+        ctx.ev()
+        if got != exp:
+            ctx.violation("get_bands_in_range!=whole_groups_intersecting_window", f"got {got}, expected {exp}", wit)
+        nbelow = int(get_bands_below_range(emin, E, Ebandmax=hi_b) if spans else get_bands_below_range(emin, E))
+        ctx.ev()
+        if nbelow != int((hi_b < emin).sum()):
+            ctx.violation("get_bands_below_range!=count_of_bands_below", f"got {nbelow}, expected {int((hi_b < emin).sum())}", wit)
+        if sel is None:
+            # the sea bookkeeping of the calculators: deep block (0, min(nbelow, first group in range)) + groups in range
+            deep = min(nbelow, got[0][0]) if got else nbelow
+            covered = list(range(deep)) + [b for g in got for b in range(*g)]
+            ctx.ev()
+            if sorted(covered) != list(range(len(covered))) or any(b not in covered for b in range(nb) if lo_b[b] <= emax):
+                ctx.violation("sea_blocks_do_not_account_for_every_band_once", f"deep block (0,{deep}) + groups {got}", wit)
+        ctx.count("direct_band_ranges")
+        if spans:
+            ctx.count("direct_band_ranges_with_spans")
+
+
+def pending_forms(ctx, system, grid, Ef, sel, common, ref, scale, wit):
+    """select_bands / Efermi given as tuple or list instead of ndarray (the repository's own tests pass select_bands as a tuple).
+    Fires on the unchanged tree (TypeError in utility.weight_select_bands / AttributeError in StaticCalculator.__init__), therefore only
+    with VERIF_C13_PENDING=1."""
+    from wannierberri import calculators as calc
+    forms = {"sel_tuple": dict(Efermi=Ef, select_bands=tuple(int(x) for x in sel)),
+             "sel_list": dict(Efermi=Ef, select_bands=[int(x) for x in sel]),
+             "ef_list": dict(Efermi=[float(x) for x in Ef], select_bands=sel),
+             "ef_tuple": dict(Efermi=tuple(float(x) for x in Ef), select_bands=sel)}
+    for k, kw in forms.items():
+        try:
+            r = runner.run(system, grid, {k: calc.static.DOS(**kw, **common)}).results[k].data
+        except (TypeError, AttributeError) as e:
+            ctx.ev()
+            ctx.violation(f"DOS[{k}]:raises_{type(e).__name__}", f"DOS({ {a: type(b).__name__ for a, b in kw.items()} }) raises {e!r}; "
+                          "the ndarray form of the same arguments works", dict(wit, select_bands=sel))
+            continue
+        ctx.close(f"DOS[{k}]!=DOS[ndarray arguments]", r, ref, rtol=1e-12, scale=scale, witness=dict(wit, select_bands=sel))
+    ctx.count("pending_argument_forms")
+
+
 def case(ctx, rng, idx, state):
     from wannierberri import calculators as calc
     from wannierberri.calculators.static import StaticCalculator
     from wannierberri.formula import covariant as frml
     from wannierberri.grid import Grid
 
-    variant = "generic" if rng.random() < 0.55 else "doubled"
+    variant = ["generic", "generic", "generic", "generic", "doubled", "doubled", "doubled", "multi", "chain", "chain"][int(rng.integers(10))]
     dim = 3 if rng.random() < 0.6 else 2
-    system = build_system(rng, variant, dim)
+    # degen_thresh: documented default (not passed), explicit values, and for models without exact degeneracies also 0 and a negative
+    # value (bands are never degenerate)
+    tmode = "default" if rng.random() < (0.4 if variant == "chain" else 0.12) else "explicit"
+    thresh = 1e-4 if tmode == "default" else [1e-4, 1e-4, 1e-3, 0.03, 0.3, 0.8][int(rng.integers(6))]
+    if variant == "generic" and rng.random() < 0.12:
+        tmode, thresh = "nonpositive", [0.0, -1.0][int(rng.integers(2))]
+    offset = [0.0, 0.0, 0.0, -7.5, 120.0][int(rng.integers(5))]
+    system, info = build_system(rng, variant, dim, thresh=thresh if thresh > 0 else 1e-4, offset=offset)
+    # ---- the system is brought into a state reached through public API calls before the calculators see it -----------------
+    hist = "as_built"
+    if rng.random() < 0.45:
+        system, hist = gen_systems.history_variant(rng, system, which=gen_systems.HISTORIES[1 + int(rng.integers(4))], workdir=env.WORK)
+        ctx.count("history:" + hist)
+    warm = bool(rng.random() < 0.3)
+    if warm:
+        monitors.warm_caches(system)
+        ctx.count("history:warm_caches")
     nw = system.num_wann
     if len(system.rvec.iRvec) < 3:
         raise harness.Skip("model without hopping (flat bands)")
     if dim == 3:
-        NK = tuple(int(x) for x in rng.integers(2, 6, size=3))
+        NK = [int(x) for x in rng.integers(2, 6, size=3)]
+        u = rng.random()
+        if u < 0.15:
+            NK[int(rng.integers(3))] = 1          # a periodic direction sampled by one point
+        elif u < 0.25:
+            NK = sorted(NK)
+            NK[0], NK[2] = min(NK[0], 3), int(rng.integers(7, 9))   # anisotropic, one long direction
+            NK = [NK[i] for i in rng.permutation(3)]
+        NK = tuple(NK)
     else:
         NK = tuple(int(x) for x in rng.integers(3, 10, size=2)) + (1,)
     NKdiv, NKFFT = split_grid(rng, NK)
     ks = kspace.grid_points(NK)
-    thresh = [1e-4, 1e-4, 1e-3, 0.03, 0.3, 0.8][int(rng.integers(6))]
-    kramers = bool(nw % 2 == 0 and rng.random() < (0.6 if variant == "doubled" else 0.3))
+    kramers = bool(nw % 2 == 0 and rng.random() < (0.3 if variant == "generic" else 0.5))
     orc = SeaOracle(system, ks, thresh, kramers)
     lo, hi = float(orc.E.min()), float(orc.E.max())
     width = float((orc.E.max(axis=0) - orc.E.min(axis=0)).max())
 
     # ---- Fermi grid: base grid Ef = E0 + dE*arange(nEf); every extended grid is a sub-grid of Ef2 ----------
-    efmode = ["cover", "inside", "inside", "single"][int(rng.integers(4))]
+    efmode = ["cover", "inside", "inside", "single", "cover", "inside", "inside", "single", "outside"][int(rng.integers(9))]
     nEf = 1 if efmode == "single" else int([2, 3, 4, 6, 9, 14, 22][int(rng.integers(7))])
+    if efmode != "single" and rng.random() < 0.06:
+        nEf = int([100, 128, 257][int(rng.integers(3))])
     if efmode == "cover":
         a, b = lo - rng.uniform(0.05, 1.0), hi + rng.uniform(0.05, 1.0)
         E0, dE = a, (b - a) / (nEf - 1)
     elif efmode == "inside":
         dE = float(np.exp(rng.uniform(np.log(2e-3), np.log(0.4))))
+        if nEf >= 100:
+            dE = min(dE, 2.0 * (hi - lo + 0.1) / nEf)
         E0 = rng.uniform(lo, hi) - dE * (nEf - 1) * rng.uniform(0, 1)
+    elif efmode == "outside":   # the whole (extended) window above / below all bands
+        dE = float(np.exp(rng.uniform(np.log(2e-3), np.log(0.4))))
+        E0 = hi + 2.5 * dE + rng.uniform(0.01, 1.0) if rng.random() < 0.5 else lo - (nEf + 1.5) * dE - rng.uniform(0.01, 1.0)
     else:
         dE, E0 = 1e-3, rng.uniform(lo - 0.2, hi + 0.2)
     Ef2 = E0 + dE * np.arange(-2, nEf + 2)
@@ -215,14 +371,19 @@ def case(ctx, rng, idx, state):
     if orc.ef_tie(Ef2):
         raise harness.Skip("tie: group energy within 1e-7 of a Fermi-bin edge")
 
-    common = dict(degen_thresh=thresh, degen_Kramers=kramers, save_mode="")
+    common = dict(degen_Kramers=kramers, save_mode="")
+    if tmode != "default":
+        common["degen_thresh"] = thresh
+    ctx.count("degen_thresh:" + tmode)
     internal = {"external_terms": False}
+    cf = float(rng.choice([-1.0, 1.0]) * np.exp(rng.uniform(np.log(1e-3), np.log(1e3))))
     calcs = {
         "cumdos": calc.static.CumDOS(Efermi=Ef, **common),
         "spin": calc.static.Spin(Efermi=Ef, **common),
         "ahc": calc.static.AHC(Efermi=Ef, kwargs_formula=internal, constant_factor=1.0, **common),
         "morb": calc.static.Morb(Efermi=Ef, kwargs_formula=internal, constant_factor=1.0, **common),
         "ahc_hole": calc.static.AHC(Efermi=Ef, kwargs_formula=internal, constant_factor=1.0, hole_like=True, **common),
+        "ahc_cf": calc.static.AHC(Efermi=Ef, kwargs_formula=internal, constant_factor=cf, **common),
     }
     formulas = [("Identity", frml.Identity, {}), ("Omega", frml.Omega, internal), ("Spin", frml.Spin, {}),
                 ("VelVel", frml.VelVel, {}), ("InvMass", frml.InvMass, {}), ("VelOmega", frml.VelOmega, internal),
@@ -234,28 +395,55 @@ def case(ctx, rng, idx, state):
             ka, kb = f"fd{n}_{name}_surf", f"fd{n}_{name}_sea"
             calcs[ka] = StaticCalculator(Formula=F, fder=n, Efermi=Ef, kwargs_formula=kf, **common)
             calcs[kb] = StaticCalculator(Formula=F, fder=0, Efermi=ext[n], kwargs_formula=kf, **common)
-            fd_jobs.append((n, name, ka, kb))
+            fd_jobs.append((n, name, ka, kb, F, kf))
             if f"scale_{name}" not in calcs:  # natural scale of the formula: its sea values across the band range
                 calcs[f"scale_{name}"] = StaticCalculator(Formula=F, fder=0, Efermi=np.linspace(lo - 0.05, hi + 0.05, 9), kwargs_formula=kf,
                                                           **common)
     calcs["dos"] = calc.static.DOS(Efermi=Ef, **common)
     calcs["cumdos_ext1"] = calc.static.CumDOS(Efermi=Ef1, **common)
+    # ---- band selections: a sorted index array; the same set in another order; everything; nothing; the complement ----------------
     sel = np.sort(rng.choice(nw, size=int(rng.integers(1, nw + 1)), replace=False))
+    comp = np.array([i for i in range(nw) if i not in set(sel.tolist())], dtype=int)
+    sel_perm = sel[rng.permutation(len(sel))]
     calcs["dos_sel"] = calc.static.DOS(Efermi=Ef, select_bands=sel, **common)
     calcs["spin_sel"] = StaticCalculator(Formula=frml.Spin, fder=1, Efermi=Ef, select_bands=sel, **common)
-    calcs["tab"] = calc.TabulatorAll({
+    calcs["dos_sel_perm"] = calc.static.DOS(Efermi=Ef, select_bands=sel_perm, **common)
+    calcs["dos_sel_all"] = calc.static.DOS(Efermi=Ef, select_bands=np.arange(nw), **common)
+    calcs["dos_sel_none"] = calc.static.DOS(Efermi=Ef, select_bands=np.array([], dtype=int), **common)
+    nsel = int(rng.integers(2, 4))       # a higher derivative of the selected-state count
+    calcs["ident_sel"] = StaticCalculator(Formula=frml.Identity, fder=nsel, Efermi=Ef, select_bands=sel, **common)
+    pn, pname, pka, pkb, pF, pkf = fd_jobs[int(rng.integers(len(fd_jobs)))]   # selection + complement == no selection, any formula
+    calcs["part_sel"] = StaticCalculator(Formula=pF, fder=pn, Efermi=Ef, kwargs_formula=pkf, select_bands=sel_perm, **common)
+    calcs["part_comp"] = StaticCalculator(Formula=pF, fder=pn, Efermi=Ef, kwargs_formula=pkf, select_bands=comp, **common)
+    # ---- k-resolved: the named calculators, a selected DOS and one random (formula, fder) job -----------------------------------
+    kn, kname, kka, kkb, kF, kkf = fd_jobs[int(rng.integers(len(fd_jobs)))]
+    tabs = {
         "cumdos": calc.static.CumDOS(Efermi=Ef, k_resolved=True, **common),
         "ahc": calc.static.AHC(Efermi=Ef, kwargs_formula=internal, constant_factor=1.0, k_resolved=True, **common),
         "morb": calc.static.Morb(Efermi=Ef, kwargs_formula=internal, constant_factor=1.0, k_resolved=True, **common),
         "dos": calc.static.DOS(Efermi=Ef, k_resolved=True, **common),
-    }, mode="grid", save_mode="")
+        "dos_sel": calc.static.DOS(Efermi=Ef, k_resolved=True, select_bands=sel, **common),
+        kka: StaticCalculator(Formula=kF, fder=kn, Efermi=Ef, kwargs_formula=kkf, k_resolved=True, **common),
+    }
+    # ---- tetra=True: only the relations of this property that do not depend on the tetrahedron weights (those are C14) ------------
+    tetra = bool(rng.random() < 0.2)
+    if tetra:
+        for key, cls, kw in (("t_cumdos", calc.static.CumDOS, {}), ("t_dos", calc.static.DOS, {}),
+                             ("t_ahc", calc.static.AHC, dict(kwargs_formula=internal, constant_factor=1.0))):
+            calcs[key] = cls(Efermi=Ef, tetra=True, **kw, **common)
+            tabs[key] = cls(Efermi=Ef, tetra=True, k_resolved=True, **kw, **common)
+        calcs["t_dos_sel"] = calc.static.DOS(Efermi=Ef, tetra=True, select_bands=sel_perm, **common)
+        calcs["t_dos_comp"] = calc.static.DOS(Efermi=Ef, tetra=True, select_bands=comp, **common)
+    calcs["tab"] = calc.TabulatorAll(tabs, mode="grid", save_mode="")
 
     grid = Grid(system, NKdiv=NKdiv, NKFFT=NKFFT)
     result = runner.run(system, grid, calcs)
     R = {k: (v.data if hasattr(v, "data") else v) for k, v in result.results.items()}
     vol = abs(np.linalg.det(system.real_lattice))
-    wit = dict(variant=variant, dim=dim, nw=nw, NK=NK, NKdiv=NKdiv, NKFFT=NKFFT, degen_thresh=thresh,
-               degen_Kramers=kramers, efmode=efmode, E0=E0, dE=dE, nEf=nEf, band_range=(lo, hi))
+    wit = dict(variant=variant, copies=info["m"], chain_shift=info["delta"], offset=offset, history=hist, warm_caches=warm, dim=dim, nw=nw,
+               NK=NK, NKdiv=NKdiv, NKFFT=NKFFT, degen_thresh=thresh, degen_thresh_passed=tmode, degen_Kramers=kramers, efmode=efmode,
+               E0=E0, dE=dE, nEf=nEf, band_range=(lo, hi))
+    SC = {}   # natural scale of every judged key (used again by the re-use history below)
 
     # ---------------- (a) sea semantics against the harness sum ------------------------------------------
     cnt = orc.sea("count", Ef)[:, 0]
@@ -284,8 +472,12 @@ def case(ctx, rng, idx, state):
     ctx.close("Morb_internal!=harness_sea_Kubo_sum[non_additive]", R["morb"], morb_exp, rtol=1e-8, scale=morb_scale,
               what="Morb(internal, constant_factor=1) vs Kubo sum with the occupied manifold 0..N(k)", witness=wit)
     ctx.count("sea_morb_nonadditive")
+    SC.update(cumdos=nw, spin=orc.scale["spin"], ahc=orc.scale["omega"] / vol, morb=morb_scale, dos=nw / dE, dos_sel=nw / dE)
     if kramers:
         ctx.count("cases_degen_Kramers")
+    ctx.close("AHC[constant_factor=c]!=c*AHC[constant_factor=1]", R["ahc_cf"], cf * R["ahc"], rtol=1e-12,
+              scale=abs(cf) * orc.scale["omega"] / vol, witness=dict(wit, constant_factor=cf))
+    ctx.count("constant_factor")
     # informational only: hole_like is undocumented and NOT judged (outside the property)
     if np.abs(R["ahc"]).max() > 1e-6 * orc.scale["omega"] / vol:
         if np.allclose(R["ahc_hole"], -R["ahc"], rtol=1e-9, atol=1e-12 * orc.scale["omega"] / vol):
@@ -294,11 +486,11 @@ def case(ctx, rng, idx, state):
             ctx.count("not_judged:hole_like_nontetra_other")
 
     # ---------------- (b) fder=n  ==  n-th central difference of the sea calculator -----------------------
-    for n, name, ka, kb in fd_jobs:
+    for n, name, ka, kb, F, kf in fd_jobs:
         B = R[kb]
         exp = central_diff(B, n, dE)
-        ctx.close(f"fder{n}!=central_difference_of_sea", R[ka], exp, rtol=1e-9,
-                  scale=max(np.abs(B).max(), np.abs(R[f"scale_{name}"]).max()) / dE ** n,
+        SC[ka] = max(np.abs(B).max(), np.abs(R[f"scale_{name}"]).max()) / dE ** n
+        ctx.close(f"fder{n}!=central_difference_of_sea", R[ka], exp, rtol=1e-9, scale=SC[ka],
                   what=f"StaticCalculator(Formula={name}, fder={n}) vs difference quotient of fder=0 on the extended grid",
                   witness=dict(wit, formula=name))
         ctx.count(f"fd_order{n}")
@@ -310,21 +502,46 @@ def case(ctx, rng, idx, state):
     ctx.close("DOS!=central_difference_of_harness_count", R["dos"], dos_ref, rtol=1e-9, scale=nw / dE, witness=wit)
 
     # ---------------- (d) select_bands on surface calculators ---------------------------------------------
+    wsel = dict(wit, select_bands=sel)
     acc, sc = orc.selected_acc("count", Ef1, sel)
-    ctx.close("DOS[select_bands]!=harness", R["dos_sel"], central_diff(acc[:, 0], 1, dE), rtol=1e-9, scale=nw / dE,
-              what=f"DOS with select_bands={sel.tolist()} vs difference quotient of the selected-state count",
-              witness=dict(wit, select_bands=sel))
+    dos_sel_ref = central_diff(acc[:, 0], 1, dE)
+    ctx.close("DOS[select_bands]!=harness", R["dos_sel"], dos_sel_ref, rtol=1e-9, scale=nw / dE,
+              what=f"DOS with select_bands={sel.tolist()} vs difference quotient of the selected-state count", witness=wsel)
     acc, sc = orc.selected_acc("spin", Ef1, sel)
     ctx.close("fder1_Spin[select_bands]!=harness", R["spin_sel"], central_diff(acc, 1, dE) / vol, rtol=1e-8,
-              scale=max(sc, orc.scale["spin"]) / dE / vol, witness=dict(wit, select_bands=sel))
+              scale=max(sc, orc.scale["spin"]) / dE / vol, witness=wsel)
     ctx.count("select_bands")
+    ctx.close("DOS[select_bands in another order]!=harness", R["dos_sel_perm"], dos_sel_ref, rtol=1e-9, scale=nw / dE,
+              what=f"DOS with select_bands={sel_perm.tolist()}", witness=dict(wit, select_bands=sel_perm))
+    if len(sel) > 1 and not np.array_equal(sel, sel_perm):
+        ctx.count("select_bands_unsorted")
+    ctx.close("DOS[select_bands=all]!=DOS", R["dos_sel_all"], R["dos"], rtol=1e-12, scale=nw / dE, witness=wit)
+    ctx.close("DOS[select_bands=empty]!=0", R["dos_sel_none"], 0 * R["dos"], rtol=0, atol=0, witness=wit)
+    ctx.count("select_bands_all_and_none")
+    acc, sc = orc.selected_acc("count", ext[nsel], sel)
+    ctx.close(f"fder{nsel}_Identity[select_bands]!=harness", R["ident_sel"], central_diff(acc[:, 0], nsel, dE) / vol, rtol=1e-9,
+              scale=nw / dE ** nsel / vol, what=f"StaticCalculator(Identity, fder={nsel}, select_bands={sel.tolist()}) vs difference "
+              "quotient of the selected-state count", witness=wsel)
+    ctx.count("select_bands_higher_fder")
+    ctx.close("select_bands+complement!=no_selection", R["part_sel"] + R["part_comp"], R[pka], rtol=1e-9, scale=SC[pka],
+              what=f"StaticCalculator({pname}, fder={pn}) with select_bands={sel_perm.tolist()} plus the same with the complement "
+              f"{comp.tolist()} vs the calculator without selection", witness=dict(wsel, formula=pname, fder=pn))
+    ctx.count("select_bands_partition")
 
     # ---------------- (c) k-resolved inside TabulatorAll ---------------------------------------------------
     tab = result.results["tab"]
-    for key, sc in (("cumdos", nw), ("ahc", orc.scale["omega"] / vol), ("morb", morb_scale), ("dos", nw / dE)):
+    SC[kka + "@k"] = SC[kka]
+    klist = [("cumdos", "cumdos", nw), ("ahc", "ahc", orc.scale["omega"] / vol), ("morb", "morb", morb_scale), ("dos", "dos", nw / dE),
+             ("dos_sel", "dos_sel", nw / dE), (kka, kka, SC[kka])]
+    if tetra:
+        # natural scales: a count; a count per energy (tetrahedron DOS is bounded by num_wann / spread of the corner energies, the Fermi
+        # spacing is the finer of the two scales here); the Kubo sum
+        klist += [("t_cumdos", "t_cumdos", nw), ("t_dos", "t_dos", nw / min(dE, max(width, 1e-3))), ("t_ahc", "t_ahc", orc.scale["omega"] / vol)]
+    for key, ukey, sc in klist:
         dk = tab.results[key].data
-        ctx.close(f"k_resolved_mean!=unresolved[{key}]", dk.mean(axis=0), R[key], rtol=1e-9, scale=sc,
-                  what=f"k-average of the k_resolved {key} vs the unresolved calculator", witness=wit)
+        ctx.close(f"k_resolved_mean!=unresolved[{key if not key.startswith('fd') else 'fder%d' % kn}]", dk.mean(axis=0), R[ukey], rtol=1e-9,
+                  scale=sc, what=f"k-average of the k_resolved {key} vs the unresolved calculator", witness=wit)
+    ctx.count(f"k_resolved_fder{kn}")
     kk = np.asarray(tab.kpoints)
     ii = np.rint(kk * np.array(NK)[None, :]).astype(int) % np.array(NK)[None, :]
     lin = (ii[:, 0] * NK[1] + ii[:, 1]) * NK[2] + ii[:, 2]
@@ -339,19 +556,58 @@ def case(ctx, rng, idx, state):
         ctx.close("k_resolved_AHC!=harness_Kubo_per_k", tab.results["ahc"].data, exp_k, rtol=1e-8,
                   scale=float(np.abs(exp_k).max()) + orc.scale["omega"] / vol, witness=wit)
     ctx.count("k_resolved")
+    if tetra:
+        ctx.close("tetra:select_bands+complement!=no_selection", R["t_dos_sel"] + R["t_dos_comp"], R["t_dos"], rtol=1e-9,
+                  scale=nw / min(dE, max(width, 1e-3)), what="DOS(tetra=True) with a selection plus with its complement vs without selection",
+                  witness=wsel)
+        ctx.count("tetra_differential")
+
+    # ---------------- history: the SAME calculator objects asked again, on another grid object with the same k set ---------------
+    if rng.random() < 0.2:
+        before = {k: np.array(v.data, copy=True) for k, v in result.results.items() if hasattr(v, "data")}
+        before_tab = {k: np.array(v.data, copy=True) for k, v in tab.results.items()}
+        NKdiv2, NKFFT2 = split_grid(rng, NK)
+        result2 = runner.run(system, Grid(system, NKdiv=NKdiv2, NKFFT=NKFFT2), calcs)
+        w2 = dict(wit, NKdiv_second=NKdiv2, NKFFT_second=NKFFT2)
+        for k, sc in SC.items():
+            if k in before:
+                ctx.close("same_calculator_object_second_run!=first_run", result2.results[k].data, before[k], rtol=1e-9, scale=sc,
+                          what=f"calculator '{k}' re-used on another NKdiv x NKFFT split of the same mesh", witness=dict(w2, key=k))
+        ctx.ev()
+        changed = [k for k, v in before.items() if not np.array_equal(v, result.results[k].data)]
+        changed += ["tab." + k for k, v in before_tab.items() if not np.array_equal(v, tab.results[k].data)]
+        if changed:
+            ctx.violation("earlier_result_changed_by_second_run", f"results returned by the first run() changed during the second: {changed}", w2)
+        ctx.count("calculator_objects_reused")
+
+    if PENDING and rng.random() < 0.25:
+        pending_forms(ctx, system, grid, Ef, sel, common, R["dos_sel"], nw / dE, wit)
 
     # ---------------- exact ties the property talks about --------------------------------------------------
     if idx % 4 == 0:
         flat_band_case(ctx, rng)
+    if idx % 4 == 1:
+        direct_ranges_case(ctx, rng)
 
     # non-trivial: bands disperse and the scanned window really cuts the spectrum
     allm = np.concatenate(orc.means)
     inside = int(((allm > Ef2[0]) & (allm < Ef2[-1])).sum())
     if width > 0.2 and inside > 0:
-        ctx.nontrivial((variant, dim, nw, NK, thresh, kramers, efmode, nEf))
+        ctx.nontrivial((variant, info["m"], dim, nw, NK, thresh, tmode, kramers, efmode, nEf, offset, hist, warm))
         ctx.count("window_cuts_bands")
-        if any(len(g) < nw for g in orc.groups):
+        sizes = [b2 - b1 for g in orc.groups for b1, b2 in g]
+        if max(sizes) > 1:
             ctx.count("cases_with_degenerate_groups")
+        if max(sizes) > 2:
+            ctx.count("cases_with_multiplets_above_2")
+        if variant == "chain" and info["m"] >= 3 and 0.5 * abs(thresh) < info["delta"] < abs(thresh):
+            ctx.count("cases_with_chain_multiplets")
+        if nEf >= 100:
+            ctx.count("cases_with_100+_Fermi_levels")
+        if offset != 0:
+            ctx.count("cases_with_energy_offset")
+    if efmode == "outside":
+        ctx.count("window_outside_all_bands")
     ctx.sample(dict(wit, groups_k0=orc.groups[0], select_bands=sel))
 
 
@@ -359,16 +615,30 @@ if __name__ == "__main__":
     harness.main(
         PROP, "exploration", case, setup_fn=setup,
         tiers=dict(quick=dict(cases=800, shards=8, time=900), thorough=dict(cases=8000, shards=16, time=3000)),
-        rule="random Hermitian models with generic SS (2-5 bands, or 1-3 bands doubled to exact two-fold degeneracy), 2D and 3D, "
-             "grids up to 5^3 / 9^2 split at random into NKdiv x NKFFT, degen_thresh in {1e-4,1e-3,.03,.3,.8}, degen_Kramers, "
-             "uniform Fermi grids (1-22 points, spacing 2e-3..1, covering the bands / inside them / single point); "
-             "non-trivial = band width > 0.2 eV and at least one group energy inside the scanned window; "
-             "distinct by (variant, dim, num_wann, NK, thresh, Kramers, grid mode, count)",
+        rule="random Hermitian models with generic SS (2-5 bands; 1-3 bands in 2-4 identical copies: exact 2-/3-/4-fold multiplets; copies "
+             "shifted by 0.45/0.8/1.6/4 degen_thresh: chain multiplets), on-site offset 0/-7.5/+120 eV, 2D and 3D, systems as built or after "
+             "rvec.copy / do_ws_dist / npz round trip / with warm caches, grids up to 5^3 (one direction 1 or 7-8) / 9^2 split at random "
+             "into NKdiv x NKFFT, degen_thresh default / {1e-4,1e-3,.03,.3,.8} / {0,-1}, degen_Kramers, uniform Fermi grids (1-22 or "
+             "100/128/257 points, spacing 2e-3..1, covering the bands / inside them / single point / outside all bands), select_bands "
+             "sorted / permuted / all / none / complement, fder 0-3, k_resolved, tetra (differential only), calculators re-used on a "
+             "second split of the mesh; non-trivial = band width > 0.2 eV and at least one group energy inside the scanned window; "
+             "distinct by (variant, copies, dim, num_wann, NK, thresh, thresh mode, Kramers, grid mode, count, offset, history, warm)",
         assumptions=["oracle = explicit Fourier sums + numpy eigh + Kubo sums in vlib/kspace.py (no wannierberri code)",
                      "tie guard: band gaps >= 1e-7 away from degen_thresh, group energies >= 1e-7 away from all Fermi-bin edges "
                      "(else Skip); exact ties only in the flat-band sub-case with exactly representable numbers",
-                     "hole_like is undocumented and not judged"],
+                     "hole_like, use_factor, Emin/Emax are undocumented and not judged; tetra=True is judged only through relations "
+                     "that do not involve the tetrahedron weights (k-average of k_resolved, selection + complement); C14 owns the weights",
+                     "select_bands / Efermi as tuple or list raise on the unchanged tree (report of the C13 review): generated only with "
+                     "VERIF_C13_PENDING=1"],
         required_counters=("sea_cumdos", "sea_spin_ahc", "sea_morb_nonadditive", "fd_order1", "fd_order2", "fd_order3",
                            "fd_nonzero", "k_resolved", "select_bands", "cases_degen_Kramers", "exact_tie_grids",
-                           "window_cuts_bands", "cases_with_degenerate_groups"),
+                           "window_cuts_bands", "cases_with_degenerate_groups",
+                           "cases_with_multiplets_above_2", "cases_with_chain_multiplets", "cases_with_energy_offset",
+                           "cases_with_100+_Fermi_levels", "window_outside_all_bands", "degen_thresh:default", "degen_thresh:nonpositive",
+                           "constant_factor", "select_bands_unsorted", "select_bands_all_and_none", "select_bands_higher_fder",
+                           "select_bands_partition", "k_resolved_fder2", "k_resolved_fder3", "tetra_differential",
+                           "calculator_objects_reused", "history:rvec_copy", "history:ws_dist", "history:npz_roundtrip",
+                           "history:warm_caches", "exact_tie_group_mean_on_grid", "exact_tie_integer_dtype_grid", "direct_band_ranges",
+                           "direct_band_ranges_with_spans")
+        + (("pending_argument_forms",) if PENDING else ()),
     )
